@@ -9,7 +9,8 @@ Two comparisons per generated statement:
 Trees are rendered twice: as prefix tokens for the model driver and as fully parenthesised source."""
 
 BIN_ALL = ["+", "-", "*", "/", "%", "**", "==", "!=", "===", "!==", "<", "<=", ">", ">=", "&", "|", "^", "<<", ">>", ">>>", "in", "instanceof"]
-BIN_SEM = ["+", "-", "*", "==", "!=", "===", "!==", "<", "<=", ">", ">=", "&", "|", "^", "<<", ">>", ">>>"]
+# no `*`: products of products leave the exactly representable integers (M-Ops is exact), then a bit operator hides it
+BIN_SEM = ["+", "-", "==", "!=", "===", "!==", "<", "<=", ">", ">=", "&", "|", "^", "<<", ">>", ">>>"]
 UN_ALL = ["-", "+", "!", "~", "void", "typeof"]
 LOG = ["&&", "||", "??"]
 VARS = ["a", "b", "c"]
@@ -92,6 +93,15 @@ class Gen:
             return ("B", [self.stmt(d - 1) for _ in range(r.randrange(0, 4))])
         if k == 10:
             return ("O",)
+        if k == 11:
+            j = r.randrange(6)
+            if j == 0:
+                return ("X", self.expr(2))
+            if j < 4:
+                body = [self.stmt(d - 1) for _ in range(r.randrange(0, 3))]
+                if r.randrange(2):
+                    body.insert(r.randrange(len(body) + 1), ("X", self.expr(1)))
+                return ("Y", body, [self.stmt(d - 1) for _ in range(r.randrange(0, 3))])
         return ("E", self.expr(2))
 
 
@@ -129,6 +139,10 @@ def tokens(t):
         return "D %s %s" % (tokens(t[1]), tokens(t[2]))
     if k == "B":
         return " ".join(["B %d" % len(t[1])] + [tokens(s) for s in t[1]])
+    if k == "X":
+        return "X " + tokens(t[1])
+    if k == "Y":
+        return " ".join(["Y %d" % len(t[1])] + [tokens(s) for s in t[1]] + ["%d" % len(t[2])] + [tokens(s) for s in t[2]])
     raise ValueError(k)
 
 
@@ -168,6 +182,10 @@ def js(t):
         return "{ " + " ".join(js(s) for s in t[1]) + " }"
     if k == "O":
         return ";"
+    if k == "X":
+        return "throw %s;" % js(t[1])
+    if k == "Y":
+        return "try { " + " ".join(js(s) for s in t[1]) + " } catch { " + " ".join(js(s) for s in t[2]) + " }"
     raise ValueError(k)
 
 
@@ -248,7 +266,7 @@ def meaning_cases(rng, tier):
         names = ["a", "b", "c", "i", "j"]
         mline = "R\t%s,undefined=U\t%s" % (",".join("%s=%s" % (k, env[k][0]) for k in names), tokens(t))
         dump = "[" + ",".join("'%s='+sv(%s)" % (k, k) for k in names) + "].join(',')"
-        expr = ("(()=>{%s let %s; try { %s } catch (e) { return 'throw '+e.name+' '+%s; } return 'ok '+%s; })()"
+        expr = ("(()=>{%s let %s; try { %s } catch (e) { return 'throw '+(e instanceof Error?e.name:'value:'+sv(e))+' '+%s; } return 'ok '+%s; })()"
                 % (SV, ",".join("%s=%s" % (k, env[k][1]) for k in names), js(t), dump, dump))
         out.append((mline, expr))
     return out
@@ -259,7 +277,8 @@ def normal(model_out):
     model_out = model_out.replace(",undefined=undefined:undefined", "")
     if model_out.startswith("throw "):
         parts = model_out.split(" ", 2)
-        return "throw %s %s" % (parts[1].split(":")[0], parts[2] if len(parts) > 2 else "")
+        name = parts[1].split(":")[0] if parts[1].startswith("ReferenceError") else parts[1]
+        return "throw %s %s" % (name, parts[2] if len(parts) > 2 else "")
     return model_out
 
 
